@@ -158,7 +158,7 @@ func (c *Ctx) elemPiece(depth int) string {
 }
 
 var textPieces = []string{"hello", " a < b ", "<", "</", "<!", "<!-", "x<y", "&amp;", "&lt;", "1 &lt; 2", "<!-- c -->", "<!---->", "<!-->", "<!--->", "<!DOCTYPE html>", "<!doctype html>",
-	"<b>bold</b>", "<p>", "</p>", "<br>", "<br/>", "\n", "  ", "<a href=\"/static\">l</a>", "<img src=\"/i.png\" alt=\"x\">", "`", "${", "<script>var a = `x`;</script>", "<style>p{}</style>"}
+	"<b>bold</b>", "<p>", "</p>", "</script", "</title", "</style", "</textarea", "<title>Hello</title", "<style>p{}</style", "<textarea>x</textarea", "<script>a</scrip", "</titl", "<br>", "<br/>", "\n", "  ", "<a href=\"/static\">l</a>", "<img src=\"/i.png\" alt=\"x\">", "`", "${", "<script>var a = `x`;</script>", "<style>p{}</style>"}
 
 func (c *Ctx) body(depth int) string {
 	var b strings.Builder
